@@ -174,6 +174,14 @@ def run_fonts(report, n, rng):
             cps = (0x1F600 + k,)
             srcs.append((build.filename_for(cps), '<svg xmlns="http://www.w3.org/2000/svg" viewBox="0 0 100 100"><defs>' + "".join(grads) + "</defs>" + "".join(shapes) + "</svg>", cps))
             expect.append(exp)
+        if i < 2:
+            # directed (round 7): an explicit index that leaves a gap, next to a plain black and a plain white fill: the gap
+            # is filled with black entries, and the black LAYER must still use the slot the unindexed black was given (the
+            # lowest free one), not one of the fillers that merely look the same
+            srcs = [(build.filename_for((0x1F600,)), '<svg xmlns="http://www.w3.org/2000/svg" viewBox="0 0 100 100"><path d="M5,5 L45,5 L45,45 L5,45 Z" fill="#000000"/>'
+                     '<path d="M50,5 L95,5 L95,45 L50,45 Z" fill="#00FF00"/><path d="M5,50 L45,50 L45,95 L5,95 Z" fill="var(--color4, red)"/></svg>', (0x1F600,))]
+            expect = [[((0, 0, 0), 1.0, None), ((0, 255, 0), 1.0, None), ((255, 0, 0), 1.0, 4)]]
+            by_index = {4: ("red", 1.0)}
         case = dict(kind="e2e", format=fmt, sources=[s[1] for s in srcs])
         try:
             over = dict(color_format=fmt, reuse_tolerance=-1.0)
@@ -198,12 +206,14 @@ def run_fonts(report, n, rng):
         free = sorted((m for m in members if m[2] is None), key=lambda m: (m[0], m[1]))
         slots = max(len(members), max(indexed, default=-1) + 1, 1)
         want = []
+        slot_of = {}  # unindexed member -> the slot the specification gives it
         for sidx in range(slots):
             if sidx in indexed:
                 want.append((indexed[sidx][0], indexed[sidx][1]))
             elif free:
                 m = free.pop(0)
                 want.append((m[0], m[1]))
+                slot_of[(m[0], m[1])] = sidx
             else:
                 want.append(((0, 0, 0), 1.0))
         got = [((c.red, c.green, c.blue), c.alpha) for c in font["CPAL"].palettes[0]]
@@ -243,6 +253,9 @@ def run_fonts(report, n, rng):
                     probs.append(f"{g} layer {li}: paints {argb} alpha {aalpha:.3f}, declared {rgb} alpha {op}")
                 if idx is not None and aidx != idx:
                     probs.append(f"{g} layer {li}: uses palette entry {aidx}, declared var(--color{idx})")
+                key = (rgb, op if v0 else 1.0)
+                if idx is None and key in slot_of and (rgb, op if v0 else 1.0, None) in members and aidx != slot_of[key] and not any(m_[:2] == key and m_[2] is not None for m_ in members):
+                    probs.append(f"{g} layer {li}: the unindexed colour {rgb} was given slot {slot_of[key]} but the layer uses entry {aidx}")
             report.count(("font", fmt, text), True)
         report.hist("fonts.format", fmt)
         report.hist("fonts.indexed_colours", min(len(by_index), 6))
